@@ -39,6 +39,7 @@ import Relic.Driver.Dmg
 import Relic.Driver.CHttp
 import Relic.Driver.Readers
 import Relic.Driver.Cosign
+import Relic.Driver.TsaX
 open Relic
 
 def dispatch (line : String) : String :=
@@ -88,6 +89,7 @@ def dispatch (line : String) : String :=
   | "RD" :: rest => Relic.Driver.Readers.handle rest
   | "COSIGN" :: rest => Relic.Driver.Cosign.handleCosign rest
   | "CAT" :: rest => Relic.Driver.Cosign.handleCat rest
+  | "TSX" :: rest => Relic.Driver.TsaX.handle rest
   | _ => "bad-op"
 
 partial def loop (h : IO.FS.Stream) (out : IO.FS.Stream) : IO Unit := do
